@@ -77,6 +77,7 @@ def main(argv):
         return 0
 
     rng = random.Random(seed * 1000003 + sum(map(ord, pid)))
+    prop.broken = list(broken)      # failing-input search: a property module may add its expensive directed scenarios
     budget = prop.budget(tier)
     if broken:
         budget *= 10      # failing-input search: 10x the random budget
